@@ -921,6 +921,12 @@ def format_toc(obj: model.Documentable) -> Optional[Tag]:
         if obj.system.options.sidebartocdepth > 0:
             toc = obj.parsed_docstring.get_toc(depth=obj.system.options.sidebartocdepth)
             if toc:
+                try:
+                    obj.parsed_docstring.to_stan(obj.docstring_linker)
+                except Exception:
+                    # The docstring can't be presented as it has been parsed, see format_docstring_fallback():
+                    # the page does not have the anchors of its sections.
+                    return None
                 return safe_to_stan(toc, obj.docstring_linker, obj, report=False,
                     fallback=lambda _,__,___:BROKEN)
     return None
